@@ -251,7 +251,7 @@ func (r *runner) checkUnplannedDeath() {
 	if (r.c.Oracles.TolerateDeath && r.errFiredNow()) || r.stopping {
 		return
 	}
-	if r.readFaultWindow() && strings.Contains(note, "input/output error") {
+	if r.diedOnReadError(note) {
 		// the store gave up on a planned read error (fail-stop): a failure, not a wrong answer; it has to come
 		// back at the next start and answer correctly then
 		r.s.Probe("died_on_read_error")
@@ -281,6 +281,19 @@ func (r *runner) errFiredNow() bool {
 func (r *runner) readFaultWindow() bool {
 	for _, f := range r.w.Plan {
 		if f.Op == "read" && f.Armed {
+			return true
+		}
+	}
+	return false
+}
+
+// diedOnReadError: the process gave up on a planned read error that has fired (fail-stop).
+func (r *runner) diedOnReadError(note string) bool {
+	if !strings.Contains(note, "input/output error") {
+		return false
+	}
+	for _, f := range r.w.Plan {
+		if f.Op == "read" && f.Fired {
 			return true
 		}
 	}
@@ -325,7 +338,7 @@ func (r *runner) step(st *Step) {
 			if res := r.st.StopGraceful(bootTimeout); res == "timeout" {
 				r.violate("hang", "graceful stop did not finish within %s simulated\n%s", bootTimeout, r.s.DumpTasks())
 			} else if res == "dead" && r.st.Node.Note() != "" {
-				if !(r.c.Oracles.TolerateDeath && r.errFiredNow()) {
+				if !(r.c.Oracles.TolerateDeath && r.errFiredNow()) && !r.diedOnReadError(r.st.Node.Note()) {
 					r.classifyDeath(r.st.Node.Note())
 				}
 			}
